@@ -868,7 +868,8 @@ func (kcp *KCP) flush(flushType FlushType) (nextUpdate uint32) {
 		newseg.conv = kcp.conv
 		newseg.cmd = IKCP_CMD_PUSH
 		newseg.sn = kcp.snd_nxt
-		newseg.resendts = currentMs() // due now: Check() must not compare an unset timestamp with the clock
+		newseg.ts = currentMs()     // as in the reference implementation: parse_fastack must not
+		newseg.resendts = newseg.ts // compare an unset timestamp with the wrapping clock, nor Check()
 		kcp.snd_buf.Push(newseg)
 		kcp.snd_nxt++
 		newSegsCount++
